@@ -30,6 +30,8 @@ import (
 	"math/big"
 	"sort"
 	"strings"
+
+	"github.com/osteele/liquid"
 )
 
 func init() {
@@ -699,6 +701,21 @@ func (t *repGen) stmtFor(v *repVar) {
 		default:
 			t.add("arrO-size", "{{ "+x+".size }}{{ "+x+" | size }}{{ "+x+" | map: \"n\" | join }}", false, x)
 		}
+	case "arrOS":
+		switch g.Intn(6) {
+		case 0:
+			t.add("arrOS-sort-natural-key", "{{ "+x+" | sort_natural: \"name\" | map: \"name\" | join: \",\" }}", false, x)
+		case 1:
+			t.add("arrOS-sort-key", "{{ "+x+" | sort: \"name\" | map: \"name\" | join: \",\" }}", false, x)
+		case 2:
+			t.add("arrOS-map", "{{ "+x+" | map: \"tag\" | join: \",\" }}|{{ "+x+" | map: \"tag\" | uniq | size }}", false, x)
+		case 3:
+			t.add("arrOS-loop", "{% for o in "+x+" %}{{ o.name }}:{{ o.tag | upcase }};{% endfor %}", false, x)
+		case 4:
+			t.add("arrOS-sort-natural-key-first", "{% assign so = "+x+" | sort_natural: \"tag\" %}{{ so.first.tag }}{{ so.last.tag }}{{ so | size }}", false, x)
+		default:
+			t.add("arrOS-index-cmp", "{{ "+x+"[0].name }}{% if "+x+"[1].name == \"Bob\" %}B{% endif %}{% if "+x+".last.tag contains \"z\" %}Z{% endif %}", false, x)
+		}
 	case "arrA":
 		switch g.Intn(4) {
 		case 0:
@@ -894,6 +911,12 @@ func genRepCase(g *RNG) *repGen {
 		}), repCtx{ptrOK: true, widthsOK: true})
 	}
 	if g.Bool() {
+		// objects whose values are all strings: the typed representation map[string]string fits
+		add("aos", "arrOS", arr(2+g.Intn(3), func() *V {
+			return VStrMap(SKV("name", VStr(g.Pick([]string{"ann", "Bob", "cy", "Di", "eve", "Al"}))), SKV("tag", VStr(g.Pick([]string{"x", "Y", "z"}))))
+		}), repCtx{ptrOK: true})
+	}
+	if g.Bool() {
 		add("aa", "arrA", arr(2+g.Intn(2), func() *V { return arr(1+g.Intn(3), rsmall) }), repCtx{ptrOK: true, widthsOK: true})
 	}
 	mk := func(n int) *V {
@@ -1065,6 +1088,9 @@ func repsStream(r *Run) {
 			r.Emit(c, replayers["reps"](r, f))
 		}
 	}
+	if r.Shard == 0 {
+		repsNestedDropFamily(r)
+	}
 	n := 5000
 	if r.Tier == "thorough" {
 		n = 80000
@@ -1157,4 +1183,48 @@ func repsStream(r *Run) {
 // plain: the statement uses neither a filter nor a comparison.
 func (s repStmt) plain() bool {
 	return !s.cmp && !strings.Contains(s.src, "|") && !strings.Contains(s.src, "tablerow") && !strings.Contains(s.src, " contains ")
+}
+
+// repsNestedDropFamily: the places where the whole-template theorem of C18 (run_std_rep_independent_partial)
+// needed a side condition, run on the real engine as pairs (representation variant, generic twin) that C18 says
+// render alike. Each pair that differs is reported with a fixed case name, so that a deviation that is recorded
+// in known_findings.json is printed as KNOWN-FINDING and any other one as a VIOLATION. Implementation only.
+func repsNestedDropFamily(r *Run) {
+	type pair struct {
+		name, src string
+		variant   map[string]any
+		generic   map[string]any
+	}
+	d := func(v any) any { return dropV{v} }
+	pairs := []pair{
+		// a drop inside a map that is printed as a whole (fmt.Sprint shows the drop's Go struct)
+		{"drop-in-printed-map", "{{ m }}", map[string]any{"m": map[string]any{"a": d(1)}}, map[string]any{"m": map[string]any{"a": 1}}},
+		// a drop inside an array that is converted to a string parameter
+		{"drop-in-array-to-string", `{{ a | append: "" }}`, map[string]any{"a": []any{d(1)}}, map[string]any{"a": []any{1}}},
+		// a drop that yields a drop, nested in an array, under values.Equal
+		{"drop-of-drop-in-array-equal", "{% case a %}{% when b %}eq{% else %}ne{% endcase %}", map[string]any{"a": []any{d(d(1))}, "b": []any{1}}, map[string]any{"a": []any{1}, "b": []any{1}}},
+		// uniq compares elements by Go equality of their dynamic types: a typed slice element is not its generic twin
+		{"uniq-typed-nested-slice", "{{ a | uniq | size }}", map[string]any{"a": []any{[]int{1}, []any{1}}}, map[string]any{"a": []any{[]any{1}, []any{1}}}},
+		// controls that must agree (they do): drops at variables, in arrays under loops, joins, comparisons, typed containers
+		{"control-drop-in-array-join", "{{ a | join: ',' }}|{% for x in a %}{{ x }}{% endfor %}|{{ a.first }}", map[string]any{"a": []any{d(1), d("b")}}, map[string]any{"a": []any{1, "b"}}},
+		{"control-drop-in-map-lookup", "{{ m.a }}|{% if m.a == 1 %}T{% endif %}|{{ m.a | plus: 1 }}", map[string]any{"m": map[string]any{"a": d(1)}}, map[string]any{"m": map[string]any{"a": 1}}},
+		{"control-typed-containers", "{{ a | join: ',' }}|{{ a | reverse | first }}|{{ m.k }}|{{ a | sort | last }}", map[string]any{"a": []int{3, 1, 2}, "m": map[string]int{"k": 7}}, map[string]any{"a": []any{3, 1, 2}, "m": map[string]any{"k": 7}}},
+	}
+	for _, p := range pairs {
+		render := func(b map[string]any) string {
+			return guard(func() string {
+				out, err := liquid.NewEngine().ParseAndRenderString(p.src, b)
+				if err != nil {
+					return "err " + err.Error()
+				}
+				return "ok " + out
+			})
+		}
+		got, want := render(p.variant), render(p.generic)
+		r.Count("nested-drop-family")
+		if got != want {
+			r.Violate("C18", "rep:nested", "reps-nested "+p.name+" "+hexField(p.src),
+				fmt.Sprintf("%q renders %q with the representation variant and %q with its generic twin", p.src, got, want))
+		}
+	}
 }
